@@ -19,9 +19,12 @@
 (*             resolved; with check_symlink "inside" is physical (all      *)
 (*             links followed), without it "inside" means reachable from   *)
 (*             that directory downwards (links followed by the OS).        *)
-(*   ListingRules - a listing is produced only when enabled, for a         *)
-(*             directory that is inside in the same sense, shows only      *)
-(*             children of that directory, no dot-files, names escaped.    *)
+(*   Listing rules - a listing is produced only when enabled, for a        *)
+(*             directory that is inside in the same sense; the page, read  *)
+(*             the way a browser reads it (ReadPage), consists of the      *)
+(*             fixed template only, and every anchor names exactly one     *)
+(*             visible child: href percent-decoded = text entity-decoded   *)
+(*             = name (AnchorsOf); no dot-files.                           *)
 (*                                                                         *)
 (* MECHANISM LAYER: normalize_path, alias match on whole components,       *)
 (* realpath + component-wise prefix test, S_IFDIR / S_IFREG decisions,     *)
@@ -113,23 +116,109 @@ AnyRootMarkers(fs, cfg) == UNION { InsideMarkers(fs, r, cfg.check) : r \in { cfg
 
 Inside(fs, cfg, b, m) == m \in AllowedMarkers(fs, cfg, b)
 
-EscName(n) ==                      \* HTML escaping of a name (util::escape)
-    LET E(c) == CASE c = 60 -> <<38,108,116,59>> [] c = 62 -> <<38,103,116,59>> [] c = 38 -> <<38,97,109,112,59>>
-                  [] c = 34 -> <<38,113,117,111,116,59>> [] c = 39 -> <<38,35,51,57,59>> [] OTHER -> <<c>>
-        F[i \in 0..Len(n)] == IF i = 0 THEN <<>> ELSE F[i - 1] \o E(n[i])
-    IN F[Len(n)]
-NoRawMarkup(t) == \A i \in DOMAIN t : t[i] \notin {60, 62, 34, 39}
-\* rows = sequence of anchor texts as they appear in the page (escaped, directories with a trailing '/')
-RowOK(fs, d, t) ==
-    /\ NoRawMarkup(t)
-    /\ \E k \in Children(fs, d) :
-         LET nm == Last(fs[k].p) IN
-         /\ ~IsDotName(nm)
-         /\ (t = EscName(nm) \/ t = EscName(nm) \o <<47>>)
-ListingRules(fs, cfg, b, rows, h1) ==
-    /\ cfg.listing
-    /\ NoRawMarkup(h1)
-    /\ \E d \in AllowedDirs(fs, cfg, b) : \A i \in DOMAIN rows : RowOK(fs, d, rows[i])
+(* ---- listing pages, read the way a browser reads them ----                                   *)
+(* A tag ends at '>', an attribute value at the matching quote character (or, unquoted, at white *)
+(* space / '>'); names are case-insensitive.  ReadPage returns [ok, anchors]: ok = every tag is   *)
+(* one of the fixed template with only the template's attributes (so nothing was injected by a   *)
+(* name or by the request path), anchors = sequence of [h : raw href value, t : raw text].       *)
+AtB(t, i) == IF i >= 1 /\ i <= Len(t) THEN t[i] ELSE 256
+IsWsB(c) == c \in {32, 9, 10, 13, 12}
+LowerB(s) == [k \in 1..Len(s) |-> IF s[k] >= 65 /\ s[k] <= 90 THEN s[k] + 32 ELSE s[k]]
+RECURSIVE FindB(_, _, _)
+FindB(t, i, c) == IF i > Len(t) THEN 0 ELSE IF t[i] = c THEN i ELSE FindB(t, i + 1, c)
+RECURSIVE SkipWsB(_, _)
+SkipWsB(t, i) == IF i <= Len(t) /\ IsWsB(t[i]) THEN SkipWsB(t, i + 1) ELSE i
+RECURSIVE NameEndB(_, _, _)        \* a name ends at white space, '/', '>' (attribute names also at '=')
+NameEndB(t, i, eq) == IF i > Len(t) \/ IsWsB(t[i]) \/ t[i] = 47 \/ t[i] = 62 \/ (eq /\ t[i] = 61) THEN i ELSE NameEndB(t, i + 1, eq)
+RECURSIVE UnqEndB(_, _)            \* an unquoted value ends at white space or '>'
+UnqEndB(t, i) == IF i > Len(t) \/ IsWsB(t[i]) \/ t[i] = 62 THEN i ELSE UnqEndB(t, i + 1)
+
+\* attributes of a start tag: [e : index of its '>' (0 = never closed), names, vals (parallel; <<>> when no value)]
+RECURSIVE TagAttrs(_, _, _)
+TagAttrs(t, i, acc) ==
+    LET q == SkipWsB(t, i) IN
+    IF q > Len(t) THEN [acc EXCEPT !.e = 0]
+    ELSE IF t[q] = 62 THEN [acc EXCEPT !.e = q]
+    ELSE IF t[q] = 47 THEN TagAttrs(t, q + 1, acc)
+    ELSE LET ne == IF t[q] = 61 THEN NameEndB(t, q + 1, TRUE) ELSE NameEndB(t, q, TRUE)
+             nm == LowerB(SubSeq(t, q, ne - 1))
+             q2 == SkipWsB(t, ne)
+         IN IF AtB(t, q2) # 61 THEN TagAttrs(t, ne, [acc EXCEPT !.names = Append(@, nm), !.vals = Append(@, <<>>)])
+            ELSE LET q3 == SkipWsB(t, q2 + 1)  c == AtB(t, q3) IN
+                 IF c = 34 \/ c = 39
+                 THEN LET qe == FindB(t, q3 + 1, c) IN
+                      IF qe = 0 THEN [acc EXCEPT !.e = 0]
+                      ELSE TagAttrs(t, qe + 1, [acc EXCEPT !.names = Append(@, nm), !.vals = Append(@, SubSeq(t, q3 + 1, qe - 1))])
+                 ELSE LET ve == UnqEndB(t, q3) IN
+                      TagAttrs(t, ve, [acc EXCEPT !.names = Append(@, nm), !.vals = Append(@, SubSeq(t, q3, ve - 1))])
+
+nA == <<97>>  nTd == <<116,100>>  nHref == <<104,114,101,102>>  nWidth == <<119,105,100,116,104>>
+TemplateNames == { <<104,116,109,108>>, <<104,101,97,100>>, <<116,105,116,108,101>>, <<98,111,100,121>>, <<104,49>>,
+                   <<116,97,98,108,101>>, <<116,104,101,97,100>>, <<116,98,111,100,121>>, <<116,114>>, nTd,
+                   <<99,111,100,101>>, nA, <<115,116,114,111,110,103>>, <<112>> }
+\* html head title body h1 table thead tbody tr td code a strong p
+TemplateTag(nm, names) ==
+    /\ nm \in TemplateNames
+    /\ IF nm = nA THEN names = <<nHref>> ELSE IF nm = nTd THEN names \in { <<>>, <<nWidth>> } ELSE names = <<>>
+
+NoPage == [ok |-> TRUE, anchors |-> <<>>]
+RECURSIVE ReadPage(_, _, _)
+ReadPage(t, i, acc) ==
+    LET p == FindB(t, i, 60) IN
+    IF p = 0 THEN acc
+    ELSE IF AtB(t, p + 1) = 33 THEN                         \* <!DOCTYPE ...>
+         (LET e == FindB(t, p, 62) IN IF e = 0 THEN [acc EXCEPT !.ok = FALSE] ELSE ReadPage(t, e + 1, acc))
+    ELSE IF AtB(t, p + 1) = 47 THEN                         \* end tag
+         (LET e == FindB(t, p, 62) IN
+          IF e = 0 \/ LowerB(SubSeq(t, p + 2, e - 1)) \notin TemplateNames THEN [acc EXCEPT !.ok = FALSE]
+          ELSE ReadPage(t, e + 1, acc))
+    ELSE LET ne == NameEndB(t, p + 1, FALSE)
+             nm == LowerB(SubSeq(t, p + 1, ne - 1))
+             a  == TagAttrs(t, ne, [e |-> 0, names |-> <<>>, vals |-> <<>>])
+         IN IF a.e = 0 \/ ~TemplateTag(nm, a.names) THEN [acc EXCEPT !.ok = FALSE]
+            ELSE IF nm = nA THEN                            \* anchor: its text runs to the next tag, which must be </a>
+                 (LET c == FindB(t, a.e + 1, 60) IN
+                  IF c = 0 \/ LowerB(SubSeq(t, c, c + 3)) # <<60,47,97,62>> THEN [acc EXCEPT !.ok = FALSE]
+                  ELSE ReadPage(t, c + 4, [acc EXCEPT !.anchors = Append(@, [h |-> a.vals[1], t |-> SubSeq(t, a.e + 1, c - 1)])]))
+            ELSE ReadPage(t, a.e + 1, acc)
+
+HexB(c) == IF c >= 48 /\ c <= 57 THEN c - 48 ELSE IF c >= 97 /\ c <= 102 THEN c - 87 ELSE IF c >= 65 /\ c <= 70 THEN c - 55 ELSE 99
+PctDec(h) ==                       \* what the browser requests for this href
+    LET D[i \in 1..(Len(h) + 1)] ==
+            IF i > Len(h) THEN <<>>
+            ELSE IF h[i] = 37 /\ i + 2 <= Len(h) /\ HexB(h[i + 1]) # 99 /\ HexB(h[i + 2]) # 99
+                 THEN <<HexB(h[i + 1]) * 16 + HexB(h[i + 2])>> \o D[i + 3]
+                 ELSE <<h[i]>> \o D[i + 1]
+    IN D[1]
+Ents == << [n |-> <<108,116,59>>, c |-> 60], [n |-> <<103,116,59>>, c |-> 62], [n |-> <<97,109,112,59>>, c |-> 38],
+           [n |-> <<113,117,111,116,59>>, c |-> 34], [n |-> <<97,112,111,115,59>>, c |-> 39], [n |-> <<35,51,57,59>>, c |-> 39],
+           [n |-> <<35,120,50,55,59>>, c |-> 39], [n |-> <<35,51,52,59>>, c |-> 34], [n |-> <<35,54,48,59>>, c |-> 60],
+           [n |-> <<35,54,50,59>>, c |-> 62], [n |-> <<35,51,56,59>>, c |-> 38] >>
+EntDec(t) ==                       \* the text the browser shows
+    LET M(i) == { k \in DOMAIN Ents : i + Len(Ents[k].n) <= Len(t) /\ SubSeq(t, i + 1, i + Len(Ents[k].n)) = Ents[k].n }
+        D[i \in 1..(Len(t) + 1)] ==
+            IF i > Len(t) THEN <<>>
+            ELSE IF t[i] = 38 /\ M(i) # {} THEN (LET k == CHOOSE k \in M(i) : TRUE IN <<Ents[k].c>> \o D[i + Len(Ents[k].n) + 1])
+            ELSE <<t[i]>> \o D[i + 1]
+    IN D[1]
+
+UpRow(a) == PctDec(a.h) = <<46,46,47>> /\ a.t = <<46,46>>
+\* anchors of a listing of directory d: each one names exactly one visible child, href and text agree, no child twice
+AnchorsOf(fs, d, anchors) ==
+    LET rows == SelectSeq(anchors, LAMBDA a : ~UpRow(a)) IN
+    /\ Len(anchors) - Len(rows) <= 1
+    /\ \A i \in DOMAIN rows :
+          /\ PctDec(rows[i].h) = EntDec(rows[i].t)
+          /\ \E k \in Children(fs, d) : LET nm == Last(fs[k].p) IN ~IsDotName(nm) /\ PctDec(rows[i].h) \in { nm, nm \o <<47>> }
+    /\ \A i, j \in DOMAIN rows : i # j => PctDec(rows[i].h) # PctDec(rows[j].h)
+\* what the implementation is expected to list (drift only): visible children that stat() finds
+ExpectedRows(fs, d) ==
+    { r \in { LET x == RealPath(fs, fs[k].p) IN
+               IF ~x.ok THEN <<>>
+               ELSE IF KindOf(fs, x.p) \in {"dir", "oth"} THEN Last(fs[k].p) \o <<47>>
+               ELSE IF KindOf(fs, x.p) = "reg" THEN Last(fs[k].p) ELSE <<>>
+               : k \in { j \in Children(fs, d) : ~IsDotName(Last(fs[j].p)) } } : r # <<>> }
+RowsOf(anchors) == { PctDec(anchors[i].h) : i \in { j \in DOMAIN anchors : ~UpRow(anchors[j]) } }
 
 (* ---- mechanism layer ---- *)
 \* normalize_path of the implementation, byte level.  After a ".." the output position steps back
